@@ -227,6 +227,30 @@ pub fn run(ctx: &mut Ctx) {
         queries.push(Query { codes: q, pre: vec![2; i * 5 % 33], how: (i % 3) as u8 });
     }
     ctx.each("standard_code_as_custom_table", vec![Case { codec: CodecId::Dna, entries, queries, builds: 20, target: None }], dispatch);
+    // many codons for one amino acid: 255, 256, 257 and 512 preimages (counters narrower than the table)
+    let mut big = vec![];
+    for (count, extra_amino) in [(255usize, false), (256, false), (257, true), (512, true)] {
+        let mut entries: Vec<(Vec<u8>, u8, Repr)> = vec![];
+        let mut k = 0usize;
+        // 4-mers first, then 5-mers
+        'outer: for len in [4usize, 5] {
+            for v in 0..4usize.pow(len as u32) {
+                if k == count {
+                    break 'outer;
+                }
+                entries.push(((0..len).map(|i| ((v >> (2 * i)) & 3) as u8).collect(), 0, Repr::Collect));
+                k += 1;
+            }
+        }
+        if extra_amino {
+            entries.push((vec![0, 1, 2], 1, Repr::Collect));
+            entries.push((vec![3, 1, 2], 2, Repr::Collect));
+            entries.push((vec![3, 3, 2], 2, Repr::Collect));
+        }
+        let queries = vec![Query { codes: vec![0, 0, 0, 0], pre: vec![1], how: 1 }, Query { codes: vec![0, 1, 2], pre: vec![], how: 0 }, Query { codes: vec![3, 3, 3, 3, 3, 3], pre: vec![2, 2], how: 2 }];
+        big.push(Case { codec: CodecId::Dna, entries, queries, builds: 2, target: None });
+    }
+    ctx.each("many_codons_per_amino", big, dispatch);
     ctx.require_class("ambiguous_amino");
     ctx.require_class("three_preimages");
     ctx.require_class("unique_amino");
